@@ -413,6 +413,41 @@ func (w *world) do(op map[string]J) (res map[string]J) {
 		if op["wm"] == true {
 			res["wm"] = wmInfo(kb)
 		}
+	case "jsonbuild":
+		// pkg/JsonResource.go in front of the builder
+		lib := w.lib(get("lib"))
+		doc := []byte(get("json"))
+		func() {
+			defer func() {
+				if r := recover(); r != nil {
+					res["panic"] = fmt.Sprint(r)
+					res["tok"] = false
+					res["ok"] = false
+				}
+			}()
+			jr, err := pkg.NewJSONResourceFromResource(pkg.NewBytesResource(doc))
+			if err != nil {
+				res["tok"] = false
+				res["ok"] = false
+				return
+			}
+			text, err := jr.Load()
+			res["tok"] = err == nil
+			if err != nil {
+				res["why"] = err.Error()
+			} else {
+				res["text"] = string(text)
+			}
+			rb := builder.NewRuleBuilder(lib)
+			jr2, _ := pkg.NewJSONResourceFromResource(pkg.NewBytesResource(doc))
+			err = rb.BuildRuleFromResource(kbName, kbVer, jr2)
+			res["ok"] = err == nil
+			if err != nil {
+				res["builderr"] = err.Error()
+			}
+		}()
+		kb := lib.GetKnowledgeBase(kbName, kbVer)
+		res["rules"] = kbInfo(kb)
 	case "inst":
 		lib := w.lib(get("lib"))
 		kb, err := lib.NewKnowledgeBaseInstance(kbName, kbVer)
